@@ -1,8 +1,8 @@
-(* C01 - compiler correctness, the invariant of Table.add over ANY visiting order, for segments without persistent
-   groups (no asset accessor, or one listing none of the segment's stateful groups): the loader / dumper / committer
-   branch of Table.add is dead there.
-   Ghost state: the block list B (index = expand B), the set Sf of nodes whose functor is registered and the predicate Dn
-   telling for which output ports Linkage.update has run (between two add() calls: all ports of the nodes of Sf). *)
+(* C01 - compiler correctness, the invariant of Table.add over ANY visiting order.
+   Ghost state: the block list B (index = expand B); the sets Sl / Sd / Sf of nodes for which the loader phase, the
+   dumper-committer phase and the functor registration of Table.add have been carried out; the predicate Dn telling for
+   which output ports Linkage.update has run. Between two add() calls the three sets coincide and Dn holds of all ports
+   of their nodes. *)
 Require Import List Bool ZArith Arith Lia.
 From FV Require Import Lib.Sym Model.C01 Model.C01Compile Proofs.C01Prim Proofs.C01Blocks.
 Import ListNotations.
@@ -24,7 +24,7 @@ Record WF : Prop := {
   w_train_stateful : forall i nd, nth_error nodes i = Some nd -> is_train nd = true -> nstateful nd = true;
   w_unique : forall i nd i' nd', nth_error nodes i = Some nd -> nth_error nodes i' = Some nd' ->
               is_train nd = true -> is_train nd' = true -> ngid nd = ngid nd' -> i = i';
-  w_nopers : forall i nd, nth_error nodes i = Some nd -> pers nd = false
+  w_assets : forall l, a = Some l -> NoDup (map fst l)
 }.
 Hypothesis wf : WF.
 
@@ -36,12 +36,45 @@ Definition srckey (T : tbl) (B : blocks) (ip : nat * nat) (k : key) : Prop :=
   exists ndi, nth_error nodes (fst ip) = Some ndi
     /\ ((nszout ndi = 1 /\ k = KU (fst ip)) \/ (nszout ndi <> 1 /\ getter_of T B (fst ip) (snd ip) k)).
 
-Inductive bkind (Sf : list nat) (Dn : nat -> nat -> Prop) (T : tbl) : instr -> list key -> Prop :=
-  | BFun i nd I : In i Sf -> nth_error nodes i = Some nd -> iop I = fop i nd -> bkind Sf Dn T I (fkeys i nd)
-  | BGet i nd p c I : In i Sf -> nth_error nodes i = Some nd -> is_train nd = false -> nszout nd <> 1 -> p < nszout nd ->
-      iop I = OGetter p -> arow T (KF c) = [Some (KU i)] -> bkind Sf Dn T I [KF c].
+Definition loader_at (B : blocks) (g : nat) (k : key) : Prop := exists I, In (I, [k]) B /\ iop I = OLoader g.
 
-Record Inv (Sf : list nat) (Dn : nat -> nat -> Prop) (T : tbl) (B : blocks) : Prop := {
+Definition statekey_ok (B : blocks) (nd : node) (sk : key) : Prop :=
+  if strain nd && pers nd then (exists c, sk = KF c) /\ loader_at B (ngid nd) sk else sk = KG (ngid nd).
+
+Definition dumper_of (T : tbl) (B : blocks) (i : nat) (k : key) : Prop :=
+  exists c I, k = KF c /\ In (I, [KF c]) B /\ iop I = ODumper /\ arow T (KF c) = [Some (KU i)].
+
+Definition trainer_in (Sd : list nat) (g : nat) : Prop :=
+  exists k ndk, In k Sd /\ nth_error nodes k = Some ndk /\ is_train ndk = true /\ ngid ndk = g.
+
+Inductive bkind (Sf : list nat) (T : tbl) : instr -> list key -> Prop :=
+  | BFun i nd I : In i Sf -> nth_error nodes i = Some nd -> iop I = fop i nd -> bkind Sf T I (fkeys i nd)
+  | BGet i nd p c I : In i Sf -> nth_error nodes i = Some nd -> is_train nd = false -> nszout nd <> 1 -> p < nszout nd ->
+      iop I = OGetter p -> arow T (KF c) = [Some (KU i)] -> bkind Sf T I [KF c]
+  | BLoad g k I : iop I = OLoader g -> persistent a g = true -> arow T k = [] -> (k = KG g \/ exists c, k = KF c) ->
+      bkind Sf T I [k]
+  | BDump i nd c I : nth_error nodes i = Some nd -> strain nd && pers nd = true -> iop I = ODumper ->
+      arow T (KF c) = [Some (KU i)] -> bkind Sf T I [KF c]
+  | BComm c I : iop I = OCommitter -> committer T = Some (KF c) -> bkind Sf T I [KF c].
+
+(* the clauses about persistent groups *)
+Record PInv (Sl Sd : list nat) (T : tbl) (B : blocks) : Prop := {
+  p_load : forall j nd, In j Sl -> nth_error nodes j = Some nd -> pers nd = true -> ~ trainer_in Sd (ngid nd) ->
+             loader_at B (ngid nd) (KG (ngid nd));
+  p_none : committer T = None -> forall i nd, In i Sd -> nth_error nodes i = Some nd -> strain nd && pers nd = false;
+  p_some : forall ck, committer T = Some ck -> exists c I, ck = KF c /\ In (I, [KF c]) B /\ iop I = OCommitter;
+  p_conv : forall ck, committer T = Some ck ->
+             exists i nd, In i Sl /\ nth_error nodes i = Some nd /\ strain nd && pers nd = true;
+  p_crow : forall ck l, committer T = Some ck -> a = Some l ->
+             List.length (arow T ck) <= List.length l
+             /\ forall off,
+                  (forall i nd, In i Sd -> nth_error nodes i = Some nd -> strain nd && pers nd = true ->
+                                offset a (ngid nd) = Some off -> exists k, aget T ck off = Some k /\ dumper_of T B i k)
+                  /\ ((forall i nd, In i Sd -> nth_error nodes i = Some nd -> strain nd && pers nd = true ->
+                                    offset a (ngid nd) <> Some off) -> aget T ck off = None)
+}.
+
+Record Inv (Sl Sd Sf : list nat) (Dn : nat -> nat -> Prop) (T : tbl) (B : blocks) : Prop := {
   v_idx : index T = expand B;
   v_ids : NoDup (map bid B);
   v_keys : NoDup (map fst (expand B));
@@ -49,10 +82,10 @@ Record Inv (Sf : list nat) (Dn : nat -> nat -> Prop) (T : tbl) (B : blocks) : Pr
   v_arows : forall k, arow T k <> [] -> (exists j nd, k = KU j /\ nth_error nodes j = Some nd) \/ In k (map fst (expand B));
   v_prows : forall k, prow T k <> [] -> exists j, In j Sf /\ k = KU j;
   v_anodup : NoDup (map fst (absl T)) /\ NoDup (map fst (pref T));
-  v_comm : committer T = None;
+  v_pers : PInv Sl Sd T B;
   v_rowsne : (forall k, In k (map fst (absl T)) -> arow T k <> []) /\ (forall k, In k (map fst (pref T)) -> prow T k <> []);
   v_kgrow : forall g, arow T (KG g) = [];
-  v_kinds : forall I ks, In (I, ks) B -> bkind Sf Dn T I ks;
+  v_kinds : forall I ks, In (I, ks) B -> bkind Sf T I ks;
   v_fun : forall i, In i Sf -> exists nd I, nth_error nodes i = Some nd /\ In (I, fkeys i nd) B /\ iop I = fop i nd;
   v_get : forall i nd p, Dn i p -> nth_error nodes i = Some nd -> is_train nd = false -> nszout nd <> 1 -> p < nszout nd ->
             exists k, getter_of T B i p k;
@@ -62,11 +95,11 @@ Record Inv (Sf : list nat) (Dn : nat -> nat -> Prop) (T : tbl) (B : blocks) : Pr
                  (Dn (fst ip) (snd ip) -> exists k, aget T (KU j) q = Some k /\ srckey T B ip k)
                  /\ (~ Dn (fst ip) (snd ip) -> aget T (KU j) q = None);
   v_pref : forall i nd, nth_error nodes i = Some nd ->
-            (In i Sf -> preset_of i nd = true -> prow T (KU i) = [KG (ngid nd)])
+            (In i Sf -> preset_of i nd = true -> exists sk, prow T (KU i) = [sk] /\ statekey_ok B nd sk)
             /\ ((~ In i Sf \/ preset_of i nd = false) -> prow T (KU i) = [])
 }.
 
-Lemma inv_empty : Inv [] (fun _ _ => False) empty [].
+Lemma inv_empty : Inv [] [] [] (fun _ _ => False) empty [].
 Proof.
   constructor.
   - reflexivity.
@@ -76,7 +109,7 @@ Proof.
   - intros k H. exfalso. apply H. reflexivity.
   - intros k H. exfalso. apply H. reflexivity.
   - split; constructor.
-  - reflexivity.
+  - constructor; simpl; [intros j nd []|intros _ i nd []|intros ck X; discriminate X|intros ck X; discriminate X|intros ck l X; discriminate X].
   - split; intros k [].
   - intros g. reflexivity.
   - intros I ks [].
@@ -87,14 +120,11 @@ Proof.
 Qed.
 
 (* the port predicate only matters on existing ports *)
-Lemma inv_ext Sf Dn Dn' T B :
+Lemma inv_ext Sl Sd Sf Dn Dn' T B :
   (forall j nd p, nth_error nodes j = Some nd -> is_train nd = false -> p < nszout nd -> (Dn j p <-> Dn' j p)) ->
-  Inv Sf Dn T B -> Inv Sf Dn' T B.
+  Inv Sl Sd Sf Dn T B -> Inv Sl Sd Sf Dn' T B.
 Proof.
   intros E H. destruct H. constructor; auto.
-  - intros I ks Hin. destruct (v_kinds0 I ks Hin) as [i nd I0 Hi Hn Ho|i nd p c I0 Hd Hn Ht Hz Hp Ho Hr].
-    + apply (BFun Sf Dn' T i nd I0 Hi Hn Ho).
-    + apply (BGet Sf Dn' T i nd p c I0); auto.
   - intros i nd p Hd Hn Ht Hz Hp. apply (v_get0 i nd p); auto. apply (E i nd p Hn Ht Hp). exact Hd.
   - intros j nd Hn. destruct (v_rows0 j nd Hn) as [Hl Hq]. split; [exact Hl|]. intros q ip Hip.
     destruct (w_ports wf j nd q ip Hn Hip) as [_ [ndi [Hni [Hti Hpi]]]].
